@@ -5,3 +5,4 @@ import AsphaltModel.Signal
 import AsphaltModel.Startup
 import AsphaltModel.Waiter
 import AsphaltModel.Tasks
+import AsphaltModel.Factory
